@@ -1,6 +1,5 @@
 package main
 
-func extractQueue()       {}
 func extractStages()      {}
 func extractExtractors()  {}
 func extractArchiver()    {}
